@@ -126,6 +126,7 @@ func (d *ParserCustomData) tryMatchCustomDice(p *parser) (*customDiceMatch, bool
 		if item.parser != nil {
 			stream := &d.stream
 			stream.init(data, start)
+			stream.host = p
 			result, err := item.parser(d.ctx, stream)
 			if err != nil {
 				if d.ctx != nil {
